@@ -159,6 +159,8 @@ def _runner(src):
                                                 "self.tx.send(ArbiterCommand::Execute(Box::pin(future))).is_ok()")),
         ("rtArbiterSpawnFnOnlySpawn", _fn_body_is(ab, "pub fn spawn_fn < F > ( & self , f : F ) -> bool", "self.spawn(async { f() })")),
         ("rtArbiterStopOnlySends", _fn_body_is(ab, "pub fn stop ( & self ) -> bool", "self.tx.send(ArbiterCommand::Stop).is_ok()")),
+        # `join` is the thread's join and nothing else (no early return on any path)
+        ("rtJoinOnlyJoins", _fn_body_is(ab, "pub fn join ( self ) -> thread :: Result < ( ) >", "self.thread_handle.join()")),
     ]
     return _lean(facts), body + hb + ab
 
